@@ -55,7 +55,8 @@ DERIVE_STYLES = ['Debug, Clone, Serialize, Deserialize', 'Debug, Clone, serde::S
                  'Serialize', 'Debug, serde::Deserialize']
 
 
-def build(shape, names, edge_ctx, root_site, root_ctx, split=None, enum_leaf=False, decoys=True, extra_root=None, err_type=None, derive_style=0, styled_node=1):
+def build(shape, names, edge_ctx, root_site, root_ctx, split=None, enum_leaf=False, decoys=True, extra_root=None, err_type=None, derive_style=0, styled_node=1,
+          extra_root_site='param'):
     """-> (files dict, expected reachable names list, all node names)
     edge_ctx: dict (src,dst) -> ctx name (default '-'); split: set of node indexes placed in a second file"""
     n, edges = SHAPES[shape]
@@ -67,6 +68,9 @@ def build(shape, names, edge_ctx, root_site, root_ctx, split=None, enum_leaf=Fal
         for k, (a, b) in enumerate(edges):
             if a == i:
                 fields.append('    pub e%d: %s,' % (k, ctx_type(edge_ctx.get((a, b), '-'), names[b])))
+        if decoys and i == 0:
+            # a tuple struct (outside the documented feature set: neither expected nor forbidden in the output) met *before* the real edges
+            fields.insert(0, '    pub w: Wrapper,')
         dv = DERIVE_STYLES[derive_style] if i == min(styled_node, n - 1) else DERIVE_STYLES[0]
         if enum_leaf and i in sinks and i != 0:
             text = '#[derive(%s)]\npub enum %s { One, Two }\n' % (dv, names[i])
@@ -77,6 +81,7 @@ def build(shape, names, edge_ctx, root_site, root_ctx, split=None, enum_leaf=Fal
     if decoys:
         main += '#[derive(Serialize, Deserialize)]\npub struct Unreached { pub x: i32, pub n: Lonely }\n#[derive(Serialize, Deserialize)]\npub struct Lonely { pub y: i32 }\n'
         main += '#[derive(Debug, Clone)]\npub struct Plain { pub z: i32 }\n'
+        main = main.replace(C.HEADER, C.HEADER + '#[derive(Debug, Clone, Serialize, Deserialize)]\npub struct Wrapper(pub u32);\n', 1)
     rt = ctx_type(root_ctx, names[0])
     roots = [0]
     if root_site == 'param':
@@ -92,7 +97,11 @@ def build(shape, names, edge_ctx, root_site, root_ctx, split=None, enum_leaf=Fal
     else:
         main += CMD + 'cmd(app: tauri::AppHandle, y: i32) { app.emit("evt", %s { id: 1 }).unwrap(); }\n' % names[0]
     if extra_root is not None:
-        main += CMD + 'second(z: %s) -> i32 { 0 }\n' % names[extra_root]
+        if extra_root_site == 'payload':
+            # the second root is reached only as an event payload
+            main += 'pub fn notify(app: tauri::AppHandle, v: %s) { app.emit("second", v).unwrap(); }\n' % names[extra_root]
+        else:
+            main += CMD + 'second(z: %s) -> i32 { 0 }\n' % names[extra_root]
         roots.append(extra_root)
     files = {'src/main.rs': main}
     if decl[1]:
